@@ -480,10 +480,27 @@ func (ex *Exec) bigBytes(x BigVal) Value {
 		}
 		return sl
 	}
-	// unbounded: an opaque blob that only hashing and SetBytes understand
+	// unbounded: an opaque blob that only hashing and SetBytes understand. Its
+	// length is exact when the bounds of the value leave few candidates (a
+	// modulus of a given bit length), otherwise it is not modelled (0).
 	a := &ArrObj{}
 	ex.blobs[a] = BigVal{I: abs, G: x.G}
-	return Slice{A: a, Len: 0, Cap: 0}
+	n := 0
+	if abs.Lo != nil && abs.Hi != nil && abs.Lo.Sign() >= 0 {
+		nlo, nhi := (abs.Lo.BitLen()+7)/8, (abs.Hi.BitLen()+7)/8
+		if nhi-nlo <= 3 {
+			conds := make([]*smt.Term, nhi-nlo+1)
+			for k := nlo; k <= nhi; k++ {
+				lo := smt.True
+				if k > 0 {
+					lo = smt.Ge(abs, smt.Pow2(uint(8*(k-1))))
+				}
+				conds[k-nlo] = smt.And(lo, smt.Lt(abs, smt.Pow2(uint(8*k))))
+			}
+			n = nlo + ex.choose(conds)
+		}
+	}
+	return Slice{A: a, Len: n, Cap: n}
 }
 
 func (ex *Exec) bigSetBytes(s Slice) BigVal {
